@@ -109,9 +109,6 @@ func (rndb *RangeNamespaceDataBlock) Populate(ctx context.Context, eds eds.Acces
 
 func (rndb *RangeNamespaceDataBlock) UnmarshalFn(root *share.AxisRoots) UnmarshalFn {
 	return func(cntrData, idData []byte) error {
-		if !rndb.Container.IsEmpty() {
-			return nil
-		}
 		rndid, err := shwap.RangeNamespaceDataIDV0FromBinary(idData)
 		if err != nil {
 			return fmt.Errorf("unmarhaling RangeNamespaceDataIDV0: %w", err)
@@ -154,7 +151,11 @@ func (rndb *RangeNamespaceDataBlock) UnmarshalFn(root *share.AxisRoots) Unmarsha
 			return fmt.Errorf("validating RangeNamespaceData for %+v: %w", rndb.ID, err)
 		}
 
-		rndb.Container = rangeNsData
+		// every body is verified, also when the Block is already populated: the hasher must
+		// never accept unverified bytes. The container populated first is kept.
+		if rndb.Container.IsEmpty() {
+			rndb.Container = rangeNsData
+		}
 		return nil
 	}
 }
